@@ -97,6 +97,10 @@ func init() {
 		return a[0]
 	})
 	vp("Assume", func(m *Machine, fr *frame, a []value) value { m.assume(a[0]); return nil })
+	vp("AssumeEq", func(m *Machine, fr *frame, a []value) value {
+		m.assume(m.binop(token.EQL, nil, a[0], a[1]))
+		return nil
+	})
 	vp("Assert", func(m *Machine, fr *frame, a []value) value {
 		m.assertCond(a[0], a[1].(string))
 		return nil
@@ -851,6 +855,30 @@ func (m *Machine) memoCall(label string, args []value, kind string) value {
 		srt = m.floatSort(64)
 	default:
 		srt = sortBV(64)
+	}
+	// identical argument terms: the earlier answer is the answer (the replay
+	// vector still gets an entry for this call, bound to the same symbol)
+	for _, prev := range m.memo[label] {
+		if len(prev.args) != len(ats) {
+			continue
+		}
+		identical := true
+		for i := range ats {
+			if ats[i] != prev.args[i] || (ats[i].sort.K == SFP && !ats[i].isVar) {
+				identical = false
+				break
+			}
+		}
+		if identical {
+			m.inputs = append(m.inputs, InputRec{Label: label, Kind: kind, term: prev.ans})
+			switch kind {
+			case "bool":
+				return symBool{prev.ans}
+			case "f64":
+				return symFloat{prev.ans, 64}
+			}
+			return symInt{prev.ans, types.Int}
+		}
 	}
 	ans := m.newInput(label, kind, srt)
 	if kind == "f64" && m.mode == ModeFP {
